@@ -27,6 +27,13 @@ THEOREMS = [
     {"name": "C02b_succeeded_partial", "strength": "P",
      "text": "succeeded => nothing in flight, nothing staged, nothing active, every record completed or retrying "
              "(excluding `retrying` needs a cross-route join invariant that is not proved)"},
+    {"name": "C02d_item_in_flight_slot_running / C02d_item_in_flight_record_active / C02d_active_slot_in_flight / "
+             "C02d_no_pending_record (props/C02d.v)", "strength": "P",
+     "text": "WITH items (no hypothesis on spec or graph; flags as in C12c): an item in flight has a running slot and an active "
+             "record; every active slot is in flight; no record is ever pending under this protocol. 'Every active record is in "
+             "flight' is false with items between polls (Example active_record_nothing_in_flight: the window emptied, the next "
+             "poll offers more) -- the right statement has 'or a never-offered item'. paused/canceled => idle and "
+             "pausing/canceling => busy are NOT proved with items (finding D24 is the obstruction found)"},
     {"name": "(tested) monitor c02, incl. with-items, intermediate action statuses (paused -> resuming -> running), runtime "
              "errors and fail commands", "strength": "T", "text": "monitor c02 on generated histories"},
 ]
